@@ -231,12 +231,13 @@ class ForcePlatformsDataBlock(Block):
         """
         Sets the platforms in the block.
         """
-        oldPlatforms = self._platforms
+        oldPlatforms, oldMap = self._platforms, self._plat_map
+        self._platforms, self._plat_map = [], []
         try:
             for platform in platforms:
                 self.add_platform(platform)
         except Exception as e:
-            self._platforms = oldPlatforms
+            self._platforms, self._plat_map = oldPlatforms, oldMap
             raise e
 
     @property
